@@ -13,6 +13,7 @@ inductive IEv
   | tick (sid : Nat)
   | disconnect (c : Nat)
   | drain
+  | conc (tasks : List (Nat × Option Req))   -- several queued messages handled at the same time (no serial order explains the outcome)
 deriving DecidableEq, Repr, Inhabited
 
 structure IStep where
